@@ -1863,7 +1863,7 @@ def run(ck):
                 common.LazyReplay({"kind": "oracle", "format": fmt, "spec": small, "original_spec": spec,
                                    "expected": "round trip preserves the carried fields and is a fixed point from the second trip on",
                                    "observed": what2},
-                                  history=lambda ci=ci: [[f_, sp_] for f_, sp_ in cases[:ci]][-400:]))
+                                  history=lambda ci=ci: [[f_, sp_] for f_, sp_ in cases[:ci]]))
     for ci, (fmt, spec, s, bad, info, rng_reason) in enumerate(results):
         if bad is not None or fmt not in MODEL_FORMATS:
             continue
